@@ -130,6 +130,7 @@ PROP = {
                       "gcov_hits_checksplitowner_found_in_split"]),
     "jobs": [
         {"mon": "mon_c04", "cfg": "plain", "cases": _q(61440, 1843200)},
+        {"mon": "mon_c04", "cfg": "plain", "cases": _q(60, 1200), "args": ["--mode", "deep"], "seed_off": 9000011},
         {"mon": "mon_c04", "cfg": "cov", "cases": _q(0, 16384), "seed_off": 4000037, "shards": 2,
          "env": {"GCOV_PREFIX": _GCDA}},
     ],
